@@ -217,7 +217,9 @@ def run_case(i, rng, rec, tier, state):
         if u != 1.0:
             r, cen = r * u, cen * u
             rec.cls("curved:extreme-units")
-        s = cs.Circle(r, cen)
+        cen, carg, cform = gen.centre_form(rng, cen, r)
+        rec.cls("centre:" + cform)
+        s = cs.Circle(r) if carg is None else cs.Circle(r, carg)
         th = points.angles(rng, None, nth)
         cls = "Circle"
         rec.cls("Circle")
@@ -229,7 +231,9 @@ def run_case(i, rng, rec, tier, state):
         if u != 1.0:
             ax, cen = [a * u for a in ax], cen * u
             rec.cls("curved:extreme-units")
-        s = cs.Ellipse(ax[0], ax[1], cen)
+        cen, carg, cform = gen.centre_form(rng, cen, max(ax))
+        rec.cls("centre:" + cform)
+        s = cs.Ellipse(ax[0], ax[1]) if carg is None else cs.Ellipse(ax[0], ax[1], carg)
         th = points.angles(rng, np.array([0, np.pi / 2, np.pi, 1.5 * np.pi]), nth)
         cls = "Ellipse"
         rec.cls("Ellipse")
